@@ -8,7 +8,7 @@ CONSTANTS
   SpellNames = {"s1", "s2", "s3", "s4"}
   EmitTrees = FALSE
   Alpha = "P"
-  Contexts = {"plain", "not", "or", "andnot", "in1", "in2", "mid", "kw"}
+  Contexts = {"plain", "not", "or", "andnot", "in1", "in2", "mid", "kw", "sub", "subin"}
   MaxLen = 2
   TailLen = 0
   DeepReps = {}
